@@ -61,6 +61,9 @@ Definition c07_reset (s : lstepobs) : bool :=
   negb (ls_closed s) || external (ls_op s)
   || negb (status_eqb (lo_status (ls_post s)) SStandby || status_eqb (lo_status (ls_post s)) SPausing)
   || (lo_hand_empty (ls_post s) && negb (lo_has_game (ls_post s))).
+(* ... and no notification published while the table stands by carries a hand (the finished one must be gone by then) *)
+Definition c07_standby_clean (s : lstepobs) : bool :=
+  forallb (fun e => negb (status_eqb (lo_status e) SStandby) || negb (lo_has_game e)) (ls_events s).
 
 (* no hand opens after close / release between hands, on a break level, or before blinds are set *)
 Definition opened_in (s : lstepobs) : bool := lo_gc (ls_pre s) <? lo_gc (ls_post s).
@@ -86,10 +89,10 @@ Definition upd_in_force (s : lstepobs) : bool :=
   match ls_op s with LUpdateBlind b => blind_eqb (lo_blind (ls_post s)) b | _ => true end.
 
 Definition C07_step_ok (s : lstepobs) : bool :=
-  c07_edges s && c07_count s && c07_one_hand s && c07_reset s && c07_no_open s && upd_in_force s.
+  c07_edges s && c07_count s && c07_one_hand s && c07_reset s && c07_standby_clean s && c07_no_open s && upd_in_force s.
 Definition C07_diag (s : lstepobs) : nat :=
   if negb (c07_edges s) then 1 else if negb (c07_count s) then 2 else if negb (c07_one_hand s) then 3
-  else if negb (c07_reset s) then 4 else if negb (c07_no_open s) then 5 else if negb (upd_in_force s) then 7 else 0.
+  else if negb (c07_reset s) then 4 else if negb (c07_standby_clean s) then 8 else if negb (c07_no_open s) then 5 else if negb (upd_in_force s) then 7 else 0.
 
 (* ---------------- C08 ---------------- *)
 Definition is_gate_step (o : lop) : bool := match o with LFinish | LTimeout => true | _ => false end.
